@@ -133,10 +133,18 @@ def sh(cmd, cwd=None, env=None, timeout=3600):
     e["CARGO_NET_OFFLINE"] = "true"
     if env:
         e.update(env)
+    # own process group, so that a timeout also ends grandchildren (a mutant can make a unit test spin forever)
+    p = subprocess.Popen(cmd, shell=True, cwd=cwd, env=e, stdout=subprocess.PIPE, stderr=subprocess.STDOUT, text=True, start_new_session=True)
     try:
-        p = subprocess.run(cmd, shell=True, cwd=cwd, env=e, stdout=subprocess.PIPE, stderr=subprocess.STDOUT, text=True, timeout=timeout)
-        return p.returncode, p.stdout
+        out, _ = p.communicate(timeout=timeout)
+        return p.returncode, out
     except subprocess.TimeoutExpired:
+        import signal
+        try:
+            os.killpg(p.pid, signal.SIGKILL)
+        except ProcessLookupError:
+            pass
+        p.communicate()
         return 124, "timeout"
 
 
@@ -164,8 +172,11 @@ def run_lane(lane, nlanes, n, seed):
         open(path, "w").write("\n".join(lines))
         rec = dict(id=m["id"], file=m["file"], line=m["line"], op=m["op"], before=m["before"], after=new.strip())
         t0 = time.time()
-        rc, out = sh("cargo test --lib --offline 2>&1 | tail -30", cwd=repo, env={"CARGO_TARGET_DIR": f"{base}/repo-target"})
-        if "error" in out and "test result" not in out:
+        rc, out = sh("cargo test --lib --offline 2>&1 | tail -30", cwd=repo, env={"CARGO_TARGET_DIR": f"{base}/repo-target"}, timeout=900)
+        if rc == 124:
+            rec["status"] = "PINNED-TESTS-FAIL"
+            rec["message"] = "unit tests did not finish within 15 minutes"
+        elif "error" in out and "test result" not in out:
             rec["status"] = "NOCOMPILE"
         elif "test result: ok" not in out:
             rec["status"] = "PINNED-TESTS-FAIL"
